@@ -4,6 +4,7 @@
 # one check there. Everything (target dir, evidence, replays) stays inside the sibling directory <dir>.verif,
 # remove it together with the worktree: rm -rf <dir>.verif  VERIF_SCALE=<percent> scales the amount of work.
 set -eu
+set -o pipefail
 WT="$(cd "$1" && pwd)"; PROP="$2"; TIER="${3:-quick}"; shift; shift; [ $# -gt 0 ] && shift
 ROOT="$(cd "$(dirname "${BASH_SOURCE[0]}")/.." && pwd)"
 SCR="${WT}.verif"; H="$SCR/harness"
@@ -12,8 +13,13 @@ sed "s#path = \"/repo\"#path = \"$WT\"#" "$ROOT/harness/Cargo.toml" > "$H/Cargo.
 cp "$ROOT/harness/Cargo.lock" "$H/Cargo.lock"
 cp "$ROOT/harness/.cargo/config.toml" "$H/.cargo/config.toml"
 rm -rf "$H/vcore" "$H/props"; ln -s "$ROOT/harness/vcore" "$H/vcore"; ln -s "$ROOT/harness/props" "$H/props"
+# spbin (workspace member): a real copy whose main.rs is the WORKTREE's server_persistent.rs
+if [ -d "$ROOT/harness/spbin" ]; then
+  mkdir -p "$H/spbin/src"; cp "$ROOT/harness/spbin/Cargo.toml" "$H/spbin/Cargo.toml"
+  cmp -s "$WT/src/bin/server_persistent.rs" "$H/spbin/src/main.rs" || cp "$WT/src/bin/server_persistent.rs" "$H/spbin/src/main.rs"
+fi
 cp "$ROOT/properties.jsonl" "$SCR/root/"; cp "$ROOT/known_findings.json" "$SCR/root/" 2>/dev/null || true
 rm -rf "$SCR/root/known_findings.d"; cp -r "$ROOT/known_findings.d" "$SCR/root/" 2>/dev/null || true
 pkg=$(echo "$PROP" | tr 'A-Z' 'a-z')
-( cd "$H" && CARGO_TARGET_DIR="$SCR/target" CARGO_NET_OFFLINE=true cargo build --release -p "$pkg" 2>&1 | tail -3 )
+( cd "$H" && CARGO_TARGET_DIR="$SCR/target" CARGO_NET_OFFLINE=true cargo build --release -p "$pkg" 2>&1 | tail -3 ) || { echo "mutant_run: build of $pkg against $WT failed (inconclusive)" >&2; exit 2; }
 VERIF_ROOT="$SCR/root" "$SCR/target/release/$pkg" --tier "$TIER" --seed "${VERIF_SEED:-0}" "$@"
